@@ -30,6 +30,25 @@ ASSUMPTIONS = ["items are OdxNamed objects whose short_name is an immutable ASCI
                "after copy()/copy.copy/deepcopy/pickle the history continues on the copy; the original is only checked to be unchanged"]
 
 
+# --- tie of kind (1) (task W15): Gen/NilItemKey.lean is regenerated from NamedItemList._get_item_key of the current source by the
+# Python->Lean translator and proved equal to the hand-written itemKey (Proofs/NilItemKeyGenEq.lean)
+LEAN_TARGETS = LEAN_TARGETS + ["OdxVerif.Props.C16Gen"]
+THEOREMS = THEOREMS + [P + t for t in ["gen_itemKey_eq", "C16_gen_item_key"]]
+TRUSTED = TRUSTED + ["translator harness/extract/py2lean.py + primitives lean/OdxVerif/Model/PyRt.lean for NamedItemList._get_item_key (str = List Char, "
+                     "sn[0] = Py.getItem, f\"_{sn}\" = concatenation; str.isdigit on one character and keyword.iskeyword are parameters of the "
+                     "rendering, instantiated with Char.isDigit and the model's keyword table; the isinstance/odxraise guards are typing assertions)"]
+
+
+def regen_item_key(ctx):
+    """Gen/NilItemKey.lean from the current source; Unsupported (source left the translator's subset) = broken obligation"""
+    import common
+    from extract import py2lean
+    py2lean.regenerate_itemkey(common.REPO, common.VERIF)
+
+
+GENERATORS = list(globals().get("GENERATORS", [])) + [regen_item_key]
+
+
 @dataclass
 class It:
     short_name: str
